@@ -34,8 +34,24 @@ using namespace hx;
 using cppcms::impl::base_cache;
 typedef booster::intrusive_ptr<base_cache> cache_ptr;
 
+#include <dlfcn.h>
 static std::atomic<long> g_now(1000);
 extern "C" time_t time(time_t *t) { time_t v=g_now.load(); if(t) *t=v; return v; }
+// every TCP socket of this process (also the ones booster::aio opens inside the library) is closed with a reset instead of
+// the FIN handshake: thousands of short-lived loopback connections per second would otherwise pile up in TIME_WAIT and
+// exhaust the ephemeral port range for everybody on this machine. All exchanges are synchronous request/answer pairs, so
+// nothing is in flight when a socket is closed.
+extern "C" int socket(int domain,int type,int protocol)
+{
+	typedef int (*fn)(int,int,int);
+	static fn real=(fn)dlsym(RTLD_NEXT,"socket");
+	int fd=real(domain,type,protocol);
+	if(fd>=0 && domain==AF_INET && (type & 0xf)==SOCK_STREAM) {
+		struct linger l; l.l_onoff=1; l.l_linger=0;
+		setsockopt(fd,SOL_SOCKET,SO_LINGER,&l,sizeof(l));
+	}
+	return fd;
+}
 
 static std::vector<std::string> splitc(std::string const &s,char sep)
 {
@@ -232,10 +248,16 @@ int main()
 			if(v.size()>=3 && v[0]=="H") {
 				// booster::thread_specific_ptr keeps its pthread key (and the tcp_cache with its connections) until the
 				// calling thread exits: run every history on a thread of its own
-				std::string err;
-				std::thread th([&]() { try { out=run_history(v); } catch(std::exception const &e) { err=e.what(); } });
-				th.join();
-				if(!err.empty()) out="EXCEPTION "+err;
+				// a history whose sockets could not be set up (loopback connect refused under load) is run again in a fresh world
+				for(int attempt=0;attempt<4;attempt++) {
+					std::string err;
+					std::thread th([&]() { try { out=run_history(v); } catch(std::exception const &e) { err=e.what(); } });
+					th.join();
+					if(err.empty()) break;
+					out="EXCEPTION "+err;
+					if(err.find("connect:")!=0) break;
+					usleep(20000*(attempt+1));
+				}
 			}
 			else if(v.size()>=4 && v[0]=="P") out=run_probe(v,fs);
 			else out="BAD-CASE";
